@@ -1,0 +1,19 @@
+//go:build verif
+
+package summaries
+
+// Machine-checked obligations for this package (comment-only; build tag `verif`).
+//
+// C09, table conformance (form D of /verif/DESIGN.md): for every entry of every
+// map reachable from stdPackages, /verif/govc resolves the key against the
+// standard library with go/types and discharges one ground obligation:
+//
+//	len(Args) <= nparams, len(Rets) <= nparams,
+//	every index in Args[i] is a parameter position (receiver = 0),
+//	every index in Rets[i] is a result position.
+//
+// That is the precondition under which (*SummaryGraph).PopulateGraphFromSummary
+// applies every listed flow (contracts of addParamEdgeByPos / addReturnEdgeByPos
+// in package dataflow); a position outside the signature is discarded silently.
+
+//@ property C09
